@@ -69,6 +69,12 @@ func c16Child() {
 		_ = os.WriteFile(filepath.Join(dir, "result.json"), b, 0o644)
 		return
 	}
+	if mode == "sharedcache" {
+		out.Witness = runSharedCache(seed, pool, ca, dir)
+		b, _ := json.Marshal(out)
+		_ = os.WriteFile(filepath.Join(dir, "result.json"), b, 0o644)
+		return
+	}
 	if mode == "witness" {
 		out.Witness = runStaleCacheWitness(pool, dir)
 		b, _ := json.Marshal(out)
@@ -207,7 +213,7 @@ func TestC16(t *testing.T) {
 			jobs = append(jobs, job{"signer", 800000 + i, 1, 600, []int{0, 2, 1}[i%3]})
 		}
 	}
-	jobs = append(jobs, job{"witness", 0, 0, 0, 0}, job{"twosigners", 0, 0, 0, 0}, job{"certexpiry", 0, 0, 0, 0}, job{"cachewindow", 0, 0, 0, 0})
+	jobs = append(jobs, job{"witness", 0, 0, 0, 0}, job{"twosigners", 0, 0, 0, 0}, job{"certexpiry", 0, 0, 0, 0}, job{"cachewindow", 0, 0, 0, 0}, job{"sharedcache", 0, 0, 0, 0})
 	// bursts of replacements arriving while a reload is being processed
 	nStorm, stBatch := r.Pick(24, 600), r.Pick(8, 50)
 	for f, i := 0, 0; f < nStorm; f, i = f+stBatch, i+1 {
@@ -343,6 +349,28 @@ func TestC16(t *testing.T) {
 						if sig := fmt.Sprint(pm["signature"]); !seen[sig] {
 							seen[sig] = true
 							r.Violation(sig, "reload completing while a cache lookup is pending: "+fmt.Sprint(pm["text"]), pm)
+						}
+					}
+				}
+				return
+			}
+			if jb.mode == "sharedcache" {
+				if h, ok := co.Witness["harness"]; ok {
+					r.Inconclusive(fmt.Sprintf("finalizers on one key store sharing a cache: %v", h))
+					return
+				}
+				num := func(k string) int { f, _ := co.Witness[k].(float64); return int(f) }
+				r.Case("finalizers-on-one-key-store-sharing-a-cache", num("requests") > 0)
+				for _, k := range []string{"cases", "finalizers", "requests", "requests_signer name", "requests_ttl", "requests_claims template", "requests_key id"} {
+					r.Count("sharedcache_"+strings.ReplaceAll(k, " ", "_"), num(k))
+				}
+				seen := map[string]bool{}
+				if ps, ok := co.Witness["problems"].([]any); ok {
+					for _, p := range ps {
+						pm, _ := p.(map[string]any)
+						if sig := fmt.Sprint(pm["signature"]); !seen[sig] {
+							seen[sig] = true
+							r.Violation(sig, "several jwt finalizers on one key store and one cache: "+fmt.Sprint(pm["text"]), pm)
 						}
 					}
 				}
@@ -546,6 +574,7 @@ func TestC16(t *testing.T) {
 	r.Require("signer_tokens_with_a_ttl_within_the_lifetime_of_the_signing_chain", r.Counter("signer_tokens_with_a_ttl_within_the_lifetime_of_the_signing_chain"), int64(nSigner))
 	r.Require("signer_reloads_back_to_an_earlier_generation", r.Counter("signer_reloads_back_to_an_earlier_generation"), int64(nSigner))
 	r.Require("cachewindow_reloads_completed_while_a_cache_lookup_was_pending", r.Counter("cachewindow_reloads_completed_while_a_cache_lookup_was_pending"), 6)
+	r.Require("sharedcache_requests", r.Counter("sharedcache_requests"), 96)
 	r.Require("signer_token_ops_with_cache_after_a_rollback", r.Counter("signer_token_ops_with_cache_after_a_rollback"), int64(nSigner))
 	r.End()
 }
